@@ -10,13 +10,15 @@ META = {
               "packet bytes each) and coap_op_obs_cnt_track_observe on a counter file with one line (concrete counter values: scripted), with EVERY crash point enumerated "
               "(one job per k: the process dies before the k-th disk-changing stdio call, or not at all; record bytes symbolic): the file under the real name is "
               "the complete old or the complete new image; B2: add a, add b, restart: coap_op_dyn_resource_load_disk replays both "
-              "creating requests; L1: saved counter 0..9999 (multiple of save_freq), save_freq 1..10: first Observe value after "
-              "restart exceeds every value that can have been sent since the save.",
-    "outside": "durability on a real file system (fflush is not fsync; directory entries); the observe-subscription file "
-               "(coap_op_observe_added/deleted and coap_op_observe_load_disk -> coap_persist_observe_add needs endpoint/session lookup "
-               "with sockets: not encoded in this version); records larger than the model's 96-byte files; OSCORE association data",
+              "creating requests; L1: saved counter 0..9999, save_freq 1..10: first Observe value after "
+              "restart exceeds every value that can have been sent since the save (every state satisfying the counter invariant); S2: one "
+              "coap_resource_notify_observers_lkd step from every counter state (Observe 0..2^24-1) preserves that invariant.",
+    "outside": "durability on a real file system (fflush is not fsync; directory entries); restoring the observe-subscription file "
+               "(coap_op_observe_load_disk -> coap_persist_observe_add needs endpoint/session lookup with sockets: not encoded; its WRITE side, "
+               "coap_op_observe_added/deleted, is covered by B1o); records larger than the model's files (96 / 320 bytes); OSCORE association data",
     "assumptions": ["stdio replaced by harness/ref/memfs.c: ISO C stream-mode semantics (a stream opened 'a' or 'w' cannot be read), atomic rename, "
-                    "writes reach the disk immediately; crash = disk frozen before the k-th mutating call",
+                    "two write models, each its own job family: unbuffered (every fwrite reaches the disk at once) and fully buffered (data reaches the disk only at fflush/fclose, a crash loses it); "
+                    "crash = disk frozen before the k-th disk-changing call",
                     "atoi modelled in the harness; uthash lookup modelled (returns no resource after restart / the observed resource)"],
 }
 
@@ -32,6 +34,32 @@ def jobs():
                           native_replay=False, remove_bodies=["coap_get_resource_from_uri_path_lkd"], tier="quick" if quick else "thorough",
                           desc="dynamic-resource store, %s, process dies before disk-changing call #%d: old or new image" % (on, crash),
                           bounds={"op": on, "crash": crash}))
+    # the same updates on fully buffered streams (data reaches the disk only at fflush/fclose): disk-changing calls are
+    # fopen(w+), fflush, rename (+ remove on failure)
+    for op, on in ((0, "add-second"), (1, "delete-first"), (2, "add-first")):
+        for crash in range(0, 4):
+            js.append(Job("B1-dyn-resource-buffered@%s-crash%d" % (on, crash), "C17/c17.c", "c17_b1_dyn_resource", UNITS, extra_src=EXTRA, unit_defines=UD,
+                          defines=["OP=%d" % op, "CRASH=%d" % crash, "MEMFS_BUFFERED"], unwind=100, flags=FS, group="B1-dyn-resource-buffered@" + on, timeout=900, est_gb=3,
+                          native_replay=False, remove_bodies=["coap_get_resource_from_uri_path_lkd"],
+                          desc="dynamic-resource store on buffered streams, %s, process dies before disk-changing call #%d: old or new image" % (on, crash),
+                          bounds={"op": on, "crash": crash, "stdio": "fully buffered"}))
+    # the observe-subscription file, both stdio models (buffered: 3 disk-changing calls; unbuffered: 1 + 7 per record + rename)
+    fso = ["--max-field-sensitivity-array-size", "400"]
+    for op, on, nops in ((0, "add-second", 16), (1, "delete-first", 9), (2, "add-first", 9)):
+        for buffered, crashes in ((1, range(-1, 4)), (0, range(0, nops + 1))):
+            for crash in crashes:
+                quick = buffered or crash in (0, 1, nops - 1, nops)
+                js.append(Job("B1-observe%s@%s-crash%d" % ("-buffered" if buffered else "", on, crash), "C17/c17.c", "c17_b1_observe", UNITS, extra_src=EXTRA, unit_defines=UD,
+                              defines=["OP=%d" % op, "CRASH=%d" % crash, "MEMFS_CAP=320"] + (["MEMFS_BUFFERED"] if buffered else []), unwind=330, flags=fso,
+                              group="B1-observe%s@%s" % ("-buffered" if buffered else "", on), timeout=900, est_gb=3, native_replay=False,
+                              remove_bodies=["coap_get_resource_from_uri_path_lkd"], tier="quick" if quick else "thorough",
+                              desc="observe-subscription file (%s stdio), %s, process dies before disk-changing call #%d: old or new set" % ("buffered" if buffered else "unbuffered", on, crash),
+                              bounds={"op": on, "crash": crash, "stdio": "fully buffered" if buffered else "unbuffered"}))
+    for crash in range(0, 3):
+        js.append(Job("B1-obs-cnt-buffered@crash%d" % crash, "C17/c17.c", "c17_b1_obs_cnt", UNITS, extra_src=EXTRA, unit_defines=UD, defines=["CRASH=%d" % crash, "MEMFS_BUFFERED"],
+                      unwind=100, flags=["--max-field-sensitivity-array-size", "1600"], timeout=900, est_gb=3, native_replay=False, group="B1-obs-cnt-buffered",
+                      remove_bodies=["coap_get_resource_from_uri_path_lkd"],
+                      desc="observe-counter file update on buffered streams, process dies before disk-changing call #%d" % crash, bounds={"crash": crash, "stdio": "fully buffered"}))
     for crash in range(-1, 6):
         js.append(Job("B1-obs-cnt@crash%d" % crash, "C17/c17.c", "c17_b1_obs_cnt", UNITS, extra_src=EXTRA, unit_defines=UD, defines=["CRASH=%d" % crash],
                       unwind=100, flags=["--max-field-sensitivity-array-size", "1600"], timeout=900, est_gb=3, native_replay=False, group="B1-obs-cnt",
@@ -45,4 +73,15 @@ def jobs():
                       flags=["--max-field-sensitivity-array-size", "1600"], timeout=1800, est_gb=4, native_replay=False, group="L1-counter", tier="quick" if fr in (1, 3, 10) else "thorough",
                       remove_bodies=["coap_get_resource_from_uri_path_lkd"],
                       desc="restored Observe counter + 1 > every value sent since the save (save_freq %d)" % fr, bounds={"saved": "0..9999", "save_freq": fr}))
+    for fr in (1, 2, 3, 5, 7, 10):
+        js.append(Job("S2-counter-step@freq%d" % fr, "C17/c17.c", "c17_s2_counter_step", UNITS, extra_src=EXTRA, unit_defines=UD, defines=["FREQ=%d" % fr], unwind=20,
+                      remove_bodies=["coap_get_resource_from_uri_path_lkd", "coap_update_io_timer"], timeout=900, est_gb=3, native_replay=False, group="S2-counter-step",
+                      desc="one coap_resource_notify_observers_lkd step from every counter state: the file is never a full save interval behind (save_freq %d)" % fr,
+                      bounds={"observe": "0..2^24-1", "save_freq": fr}))
+    for fr in (1, 5):
+        js.append(Job("S3-registration@freq%d" % fr, "C17/c17.c", "c17_s3_registration", UNITS, extra_src=EXTRA, unit_defines=UD, defines=["FREQ=%d" % fr, "C17_REGISTRATION"],
+                      unwind=20, remove_bodies=["coap_get_resource_from_uri_path_lkd", "coap_update_io_timer", "coap_show_pdu"], timeout=900, est_gb=3,
+                      native_replay=False, group="S3-registration", flags=FS,
+                      desc="coap_add_observer of a first subscriber: the counter in use is handed to the tracking callback (save_freq %d)" % fr,
+                      bounds={"observe": "0..2^24-1", "save_freq": fr}))
     return js
